@@ -170,13 +170,13 @@ impl Members {
             && let Some(state) = self.states.get_mut(actor_id)
         {
             // We check which range-bucket the RTT is
-            // contained in, then update the stored index
-            for (ring, n) in RING_BUCKETS.iter().enumerate() {
-                if n.contains(&avg) {
-                    state.ring = Some(ring as u8);
-                    break;
-                }
-            }
+            // contained in, then update the stored index.
+            // An average beyond the last bucket means no ring at all,
+            // rather than whatever ring an earlier average produced.
+            state.ring = RING_BUCKETS
+                .iter()
+                .position(|n| n.contains(&avg))
+                .map(|ring| ring as u8);
         }
     }
 
